@@ -63,8 +63,11 @@ type Cell struct {
 	PaintSt   Style
 	PaintDef  Style
 	PaintDefs []Style
-	// Touched counts modifications, for the C13 change detection.
-	Ver int
+	// Dirtied: the stored rune, combining runes or style were changed (even
+	// transiently) since the harness last cleared the flag at a Show.
+	Dirtied  bool
+	WideDirt bool
+	Ver      int
 }
 
 type Model struct {
@@ -104,6 +107,14 @@ func (m *Model) SetContent(x, y int, r rune, comb []rune, st Style) {
 	c := m.At(x, y)
 	m.ver++
 	nst := mergeNone(st, c.St)
+	if c.R != r || string(c.Comb) != string(comb) || c.St != nst || r == 0 {
+		// (storing the zero rune over a never-set cell is counted as a
+		// change: the statement is silent on it)
+		c.Dirtied = true
+		if Width(c.R) == 2 || Width(r) == 2 {
+			c.WideDirt = true // a wide rune was stored or replaced here (even transiently)
+		}
+	}
 	c.R = r
 	c.Comb = append([]rune(nil), comb...)
 	c.St = nst
@@ -117,6 +128,9 @@ func (m *Model) Fill(r rune, st Style) {
 	for i := range m.Cells {
 		c := &m.Cells[i]
 		nst := mergeNone(st, c.St)
+		if c.R != r || len(c.Comb) != 0 || c.St != nst {
+			c.Dirtied = true
+		}
 		c.R = r
 		c.Comb = nil
 		c.St = nst
@@ -172,8 +186,10 @@ func (m *Model) Lock(x, y, w, h int, lock bool) {
 			if m.In(i, j) {
 				m.At(i, j).Locked = lock
 				if !lock {
+					// an unlock marks the cell for repainting, locked or not
 					m.ver++
 					m.At(i, j).Ver = m.ver
+					m.At(i, j).Dirtied = true
 				}
 			}
 		}
@@ -318,7 +334,7 @@ func Nearest(r, g, b, n int) []int {
 	}
 	var out []int
 	for i := 0; i < n; i++ {
-		if d[i] <= best+1e-6 {
+		if d[i] <= best+1e-4 { // 0.01 ΔE: below the spread between published sRGB matrices
 			out = append(out, i)
 		}
 	}
